@@ -145,7 +145,7 @@ pub fn history_pass(ctx: &Ctx, sp: &Space, forward_s: f64) -> (Acc, HistStats) {
     stats.step = step;
     let nbases = (n + step - 1) / step;
     // wall budget: per space a fraction of what the forward sweep took, and per property a total (HIST_SPENT)
-    let total_cap = if ctx.tier.is_thorough() { 150.0 } else { 12.0 };
+    let total_cap = if ctx.tier.is_thorough() { 150.0 } else { 8.0 };
     let spent = HIST_SPENT_MS.load(std::sync::atomic::Ordering::Relaxed) as f64 / 1000.0;
     let per_eval = forward_s * ctx.threads as f64 / n as f64;
     let cap_s = (if ctx.tier.is_thorough() { (0.5 * forward_s).clamp(4.0, 40.0) } else { (0.5 * forward_s).clamp(0.7, 3.0) }).min(total_cap - spent);
